@@ -98,8 +98,12 @@ impl LocalSpan {
         #[cfg(feature = "enable")]
         if let Some(LocalSpanInner { stack, span_handle }) = &self.inner {
             // Evaluate the closure before borrowing the stack, so that it may use the
-            // tracing API itself (e.g. call a `#[trace]` function).
-            let properties = properties();
+            // tracing API itself (e.g. call a `#[trace]` function). The iterator it returns may
+            // be lazy and run user code per item, so it is drained here as well.
+            let properties: Vec<(Cow<'static, str>, Cow<'static, str>)> = properties()
+                .into_iter()
+                .map(|(k, v)| (k.into(), v.into()))
+                .collect();
             let span_stack = &mut *stack.borrow_mut();
             span_stack.with_properties(span_handle, move || properties);
         }
@@ -157,7 +161,12 @@ impl LocalSpan {
                     // tracing API itself; it is still only evaluated when recording.
                     let is_sampled = s.borrow_mut().is_sampled();
                     if is_sampled {
-                        let properties = properties();
+                        // the returned iterator may be lazy: drain it outside of the borrow too
+                        let properties: Vec<(Cow<'static, str>, Cow<'static, str>)> =
+                            properties()
+                                .into_iter()
+                                .map(|(k, v)| (k.into(), v.into()))
+                                .collect();
                         s.borrow_mut().add_properties(move || properties);
                     }
                     Some(())
